@@ -47,6 +47,8 @@ def one(name):
                 caught.append(pid)
             elif viol:
                 res.setdefault("correspondence_only", []).append(pid)
+            else:
+                res.setdefault("output_tail", {})[pid] = (r.stdout or "")[-1500:]
         res["caught_with_failing_input"] = caught
         res["status"] = "caught" if caught else "MISSED"
     finally:
